@@ -44,6 +44,20 @@ def psf1d(kind, size, param):
     return P / P.sum()
 
 
+def psf2d(kind, size, param):
+    """named 2-D kernels by their definition on the pixel grid centred at pixel size//2 (Gauss: std = param; Moffat: scale = param,
+    exponent 1; defocus: uniform on the pixels within distance param of the centre)"""
+    x = np.arange(-np.fix(size / 2), np.ceil(size / 2))
+    X, Y = np.meshgrid(x, x)
+    if kind == "gauss":
+        P = np.exp(-0.5 * (X ** 2 + Y ** 2) / param ** 2)
+    elif kind == "moffat":
+        P = 1.0 / (1 + (X ** 2 + Y ** 2) / param ** 2)
+    else:
+        P = ((X ** 2 + Y ** 2) <= param ** 2).astype(float)
+    return P / P.sum()
+
+
 MODE1 = {"zero": "constant", "periodic": "wrap", "mirror": "mirror", "reflect": "reflect", "nearest": "nearest"}
 
 
@@ -52,7 +66,7 @@ def deconv1d_cases(draw, tier="quick"):
     dim = draw(st.integers(8, 16 if tier == "quick" else 32))
     psf = draw(st.sampled_from(["gauss", "moffat", "defocus", "array", "array"]))
     c = {"dim": dim, "PSF": psf, "PSF_param": draw(st.sampled_from([None, 1.2, 2.5, 4.0])),
-         "PSF_size": draw(st.one_of(st.none(), st.integers(3, dim))),
+         "PSF_size": draw(st.one_of(st.none(), st.integers(3, dim), st.integers(dim + 1, dim + 3))),
          "BC": draw(st.sampled_from(["zero", "periodic", "Mirror", "Reflect", "Nearest"])),
          "phantom": draw(st.sampled_from(["gauss", "sinc", "vonMises", "square", "hat", "bumps", "derivGauss", "pc", "skyscraper", "array"])),
          "noise_type": draw(st.sampled_from(["gaussian", "scaledGaussian"])),
